@@ -200,6 +200,21 @@ def call_sites(ctx, sel):
                 text = '[' + G.SEC[ty] + ']\n' + '\n'.join(G.BASE[ty] + [f'{key}={sp}']) + '\n'
                 ops.append(f'convert\t0\t0\t{hx("/q/a." + ty)}\t{hx(text)}')
                 metas.append((f'{key}= of a .{ty}', s, sp, text, lambda s, av, spec=spec: any(av[i] == spec and av[i + 1] == s for i in range(len(av) - 1)), f'{spec} <the string>'))
+    # … and the single-valued keys with a handler of their own: the object of the unit (Yaml=, File=, Image=, Rootfs=)
+    pool = [p for p in sel if '/' not in p[0] and p[0] not in ('.', '..') and not p[0].startswith(('%', '-')) and not p[0].endswith(('.image', '.build'))]
+    OBJ = [('kube', 'Yaml', [], lambda full, av: av[-1] == full, 'the path is the last argument'),
+           ('build', 'File', ['ImageTag=localhost/t'], lambda full, av: any(av[i] == '--file' and av[i + 1] == full for i in range(len(av) - 1)), '--file <path>'),
+           ('container', 'Rootfs', [], lambda full, av: any(av[i] == '--rootfs' and av[i + 1] == full for i in range(len(av) - 1)), '--rootfs <path>'),
+           ('image', 'Image', [], lambda full, av: av[-1] == full, 'the image is the last argument')]
+    for ty, key, base_lines, ok, what in OBJ:
+        for s_, _sp in rnd.sample(pool, min(len(pool), 24 if ctx.thorough else 8)):
+            full = '/p/' + s_
+            spf = spell(rnd, full)
+            if '\n' in spf or spf != spf.strip() or spf.endswith('\\'):
+                continue
+            text = '[' + G.SEC[ty] + ']\n' + '\n'.join(base_lines + [f'{key}={spf}']) + '\n'
+            ops.append(f'convert\t0\t0\t{hx("/q/o." + ty)}\t{hx(text)}')
+            metas.append((f'{key}= of a .{ty}', full, spf, text, ok, what))
     for ty, lines, referrer, ok, what in HANDED_ON:
         # a ContainerName with a specifier other than %N has no resolved name by design (get_container_resource_name): the
         # referrer is rejected, which is outside this statement
